@@ -41,6 +41,7 @@ impl<const N: u64> enumerated::Constraint for En<N> {
 
 struct Acc {
     evals: u64,
+    schedules: u64,
     fails: BTreeMap<String, (u64, Failure)>,
     samples: Vec<Value>,
 }
@@ -54,6 +55,49 @@ impl Acc {
 
 const SENTINEL: [u8; 3] = [0xDE, 0xAD, 0x5A];
 
+/// The environment of the reader: a byte source that may answer a read with fewer octets than asked for
+/// (`Read::read` is allowed to; BufReader, Chain, sockets and pipes do). A read never goes across one of
+/// the `stops`; without stops it behaves like a slice.
+struct Src<'a> {
+    data: &'a [u8],
+    pos: usize,
+    stops: Vec<usize>,
+}
+
+impl<'a> Src<'a> {
+    fn new(data: &'a [u8], stops: Vec<usize>) -> Self {
+        Src { data, pos: 0, stops }
+    }
+    fn rest(&self) -> &[u8] {
+        &self.data[self.pos..]
+    }
+}
+
+impl<'a> std::io::Read for Src<'a> {
+    fn read(&mut self, buf: &mut [u8]) -> std::io::Result<usize> {
+        let mut end = self.data.len().min(self.pos + buf.len());
+        if let Some(s) = self.stops.iter().find(|s| **s > self.pos && **s < end) {
+            end = *s;
+        }
+        let n = end - self.pos;
+        buf[..n].copy_from_slice(&self.data[self.pos..end]);
+        self.pos = end;
+        Ok(n)
+    }
+}
+
+/// every schedule of short reads with at most one stop, and the one with a stop after every octet
+fn schedules(len: usize) -> Vec<Vec<usize>> {
+    let mut v = vec![vec![]];
+    for p in 1..len {
+        v.push(vec![p]);
+    }
+    if len > 2 {
+        v.push((1..len).collect());
+    }
+    v
+}
+
 /// write with `w`, then read with `r` from (bytes) and from (bytes + sentinel); checks identity
 /// and exact consumption. `r` returns (value as string, remaining slice length).
 fn roundtrip(
@@ -62,7 +106,7 @@ fn roundtrip(
     case: Value,
     expected: String,
     w: &dyn Fn(&mut Vec<u8>) -> Result<(), String>,
-    r: &dyn Fn(&mut &[u8]) -> Result<String, String>,
+    r: &dyn Fn(&mut Src) -> Result<String, String>,
 ) {
     acc.evals += 1;
     let mut bytes = Vec::new();
@@ -76,18 +120,23 @@ fn roundtrip(
         if with_sentinel {
             buf.extend_from_slice(&SENTINEL);
         }
-        let mut slice: &[u8] = &buf[..];
-        let got = catch(|| r(&mut slice));
         let want_rest = if with_sentinel { 3 } else { 0 };
-        match got {
-            Err(p) => return acc.fail(&format!("{class}.read-panic"), case, expected, format!("panic: {p} (bytes {})", hex(&bytes))),
-            Ok(Err(e)) => return acc.fail(&format!("{class}.read-err"), case, expected, format!("Err({e}) (bytes {})", hex(&bytes))),
-            Ok(Ok(v)) => {
-                if v != expected {
-                    return acc.fail(&format!("{class}.value"), case, expected, format!("{v} (bytes {})", hex(&bytes)));
-                }
-                if slice.len() != want_rest || (with_sentinel && slice != SENTINEL) {
-                    return acc.fail(&format!("{class}.consumed"), case, format!("{} bytes consumed", bytes.len()), format!("{} bytes consumed (bytes {})", buf.len() - slice.len(), hex(&bytes)));
+        for stops in schedules(buf.len()) {
+            acc.schedules += 1;
+            let env = if stops.is_empty() { String::new() } else { format!(".short-reads") };
+            let how = if stops.is_empty() { String::new() } else { format!(", reads stop at {stops:?}") };
+            let mut slice = Src::new(&buf[..], stops);
+            let got = catch(|| r(&mut slice));
+            match got {
+                Err(p) => return acc.fail(&format!("{class}.read-panic{env}"), case, expected, format!("panic: {p} (bytes {}{how})", hex(&bytes))),
+                Ok(Err(e)) => return acc.fail(&format!("{class}.read-err{env}"), case, expected, format!("Err({e}) (bytes {}{how})", hex(&bytes))),
+                Ok(Ok(v)) => {
+                    if v != expected {
+                        return acc.fail(&format!("{class}.value{env}"), case, expected, format!("{v} (bytes {}{how})", hex(&bytes)));
+                    }
+                    if slice.rest().len() != want_rest || (with_sentinel && slice.rest() != SENTINEL) {
+                        return acc.fail(&format!("{class}.consumed{env}"), case, format!("{} bytes consumed", bytes.len()), format!("{} bytes consumed (bytes {}{how})", buf.len() - slice.rest().len(), hex(&bytes)));
+                    }
                 }
             }
         }
@@ -182,7 +231,7 @@ macro_rules! enum_cases {
 }
 
 fn explore(thorough: bool) -> Acc {
-    let mut acc = Acc { evals: 0, fails: BTreeMap::new(), samples: vec![] };
+    let mut acc = Acc { evals: 0, schedules: 0, fails: BTreeMap::new(), samples: vec![] };
     // lengths
     for n in lengths(thorough) {
         let class = if n <= 127 { "length.short" } else { "length.long" };
@@ -207,10 +256,16 @@ fn explore(thorough: bool) -> Acc {
         match r {
             Ok(Ok(())) => {
                 let n = bytes.len() as u32;
-                let mut s: &[u8] = &bytes[..];
-                match catch(|| s.read_integer_i64(n).map_err(|e| format!("{e:?}"))) {
-                    Ok(Ok(x)) if x == val && s.is_empty() => {}
-                    other => acc.fail(if val < 0 { "raw-i64.negative" } else { "raw-i64.non-negative" }, case, val.to_string(), format!("{other:?} bytes {}", hex(&bytes))),
+                for stops in schedules(bytes.len()) {
+                    acc.schedules += 1;
+                    let mut s = Src::new(&bytes[..], stops.clone());
+                    match catch(|| s.read_integer_i64(n).map_err(|e| format!("{e:?}"))) {
+                        Ok(Ok(x)) if x == val && s.rest().is_empty() => {}
+                        other => {
+                            acc.fail(&format!("raw-i64.{}{}", if val < 0 { "negative" } else { "non-negative" }, if stops.is_empty() { "" } else { ".short-reads" }), case.clone(), val.to_string(), format!("{other:?} bytes {} reads stop at {stops:?}", hex(&bytes)));
+                            break;
+                        }
+                    }
                 }
             }
             other => acc.fail("raw-i64.write", case, "Ok".into(), format!("{other:?}")),
@@ -224,10 +279,16 @@ fn explore(thorough: bool) -> Acc {
         match r {
             Ok(Ok(())) => {
                 let k = bytes.len() as u32;
-                let mut s: &[u8] = &bytes[..];
-                match catch(|| s.read_integer_u64(k).map_err(|e| format!("{e:?}"))) {
-                    Ok(Ok(x)) if x == n && s.is_empty() => {}
-                    other => acc.fail("raw-u64", case, n.to_string(), format!("{other:?} bytes {}", hex(&bytes))),
+                for stops in schedules(bytes.len()) {
+                    acc.schedules += 1;
+                    let mut s = Src::new(&bytes[..], stops.clone());
+                    match catch(|| s.read_integer_u64(k).map_err(|e| format!("{e:?}"))) {
+                        Ok(Ok(x)) if x == n && s.rest().is_empty() => {}
+                        other => {
+                            acc.fail(if stops.is_empty() { "raw-u64" } else { "raw-u64.short-reads" }, case.clone(), n.to_string(), format!("{other:?} bytes {} reads stop at {stops:?}", hex(&bytes)));
+                            break;
+                        }
+                    }
                 }
             }
             other => acc.fail("raw-u64.write", case, "Ok".into(), format!("{other:?}")),
@@ -277,6 +338,7 @@ pub fn run(args: &Args) -> ! {
     let mut report = Report::new(args, "exploration");
     let acc = explore(args.tier.is_thorough());
     let evals = acc.evals;
+    let schedules = acc.schedules;
     for (k, (n, f)) in acc.fails {
         report.merge(k, n, f);
     }
@@ -284,7 +346,8 @@ pub fn run(args: &Args) -> ! {
     cov.insert("exhaustive".into(), json!(true));
     cov.insert("evaluations".into(), json!(evals));
     cov.insert("distinct_nontrivial".into(), json!(evals));
-    cov.insert("rule".into(), json!("each evaluation = one distinct (operation, value) written with the real DER writer and read back twice (exact buffer; buffer followed by 3 sentinel bytes) with the real DER reader; spaces: lengths 0..300 and +-2 (quick) / +-300 (thorough) around every 2^(7k), 2^(8k) and u64::MAX; 4 classes x tag numbers 0..30 (raw identifier, BOOLEAN TLV, INTEGER TLV); all 8 Rust integer types at {min,min+1,+-2^(8k-1)+-1,+-2^(8k)+-1,-300..300,max-1,max}; BOOLEAN value octet 0..255; every index of ENUMERATED types with 1..70000 items; every case is distinct and non-trivial (>= 1 byte written)"));
+    cov.insert("schedules".into(), json!(schedules));
+    cov.insert("rule".into(), json!("each evaluation = one distinct (operation, value) written with the real DER writer and read back (exact buffer; buffer followed by 3 sentinel bytes) with the real DER reader under every schedule of the byte source with at most one short read (a read stops at offset p, for every p inside the buffer) and under the schedule that stops after every octet (Read::read may return fewer octets than asked for): same value, same consumption under every schedule; spaces: lengths 0..300 and +-2 (quick) / +-300 (thorough) around every 2^(7k), 2^(8k) and u64::MAX; 4 classes x tag numbers 0..30 (raw identifier, BOOLEAN TLV, INTEGER TLV); all 8 Rust integer types at {min,min+1,+-2^(8k-1)+-1,+-2^(8k)+-1,-300..300,max-1,max}; BOOLEAN value octet 0..255; every index of ENUMERATED types with 1..70000 items; every case is distinct and non-trivial (>= 1 byte written)"));
     cov.insert("samples".into(), Value::Array(acc.samples));
     report.finish(cov, vec!["oracle is identity + exact consumption, as the statement says; canonical (minimal) DER form is not demanded".into()])
 }
